@@ -157,7 +157,9 @@ def eval_case(case: dict) -> dict:
             ok = False
             for i in range(len(orig) + 1):
                 for j in range(i, len(orig) + 1):
-                    if orig[i:j] != got or not all(T.is_blank(x) for x in orig[:i] + orig[j:]):
+                    # 'blank line' is what the statement says an empty string contributes: an
+                    # empty line; a line holding white space is content
+                    if orig[i:j] != got or any(x != '' for x in orig[:i] + orig[j:]):
                         continue
                     if case['end_only'] and i != 0:
                         continue
